@@ -80,8 +80,20 @@ def _key(g):
     return ("named", g["named"], json.dumps(g["inputs"], sort_keys=True)) if "named" in g else C03.graph_key(g)
 
 
+def deductive(ctx):
+    """engine D: the sequential scheduler Submitter.expand_workflow hands every job of a released batch to the worker exactly
+    once with the rerun flag of the execution graph, and returns only when nothing is runnable and every node is done --
+    contracts/expand_workflow.py"""
+    from contracts import expand_workflow as EW
+    from pyvc.verify import verify, summarize
+
+    summarize(ctx, verify(ctx, EW.contract()))
+
+
 def run(ctx):
     from props import C03
+
+    deductive(ctx)
 
     ctx.level = "other"
     ctx.explanation = (
